@@ -10,6 +10,7 @@ against the independent Python statement below.
 
 Oracle (independent of the mirror, structural, no paths): `spec_entrypoints`, `spec_resolve` (deepest annotated
 branch on the value's path whose name is not the root name), `spec_inject`."""
+import json
 import itertools
 
 from translator import extract
@@ -281,6 +282,61 @@ class Impl:
             return classify(e)
 
 
+def python_object_stream(ctx, types):
+    """the same entrypoint calls given in the Python-object form `{entrypoint: argument}` (ParameterSection.from_python_object —
+    what `contract.<entrypoint>(arg)` uses), on parameter types whose unannotated leaves additionally carry `:type` names, some of
+    them equal to an entrypoint name: a type name is not an entrypoint (oracle only — the Lean model has no `:` annotations)"""
+    from pytezos.michelson.sections.parameter import ParameterSection
+    rng = ctx.rng
+    n_types = 0
+    for origin, t in types:
+        sp = spec_entrypoints(t)
+        if t[0] != 'o' or sp is None or len(sp) < 2:
+            continue
+        names = [n for n in sp if n != spec_root_name(t)]
+        if not names:
+            continue
+        n_types += 1
+        if n_types > (250 if ctx.tier == 'quick' else 4000):
+            break
+        mode = n_types % 3          # 0: no type names, 1: fresh type names, 2: type names equal to entrypoint names
+
+        def expr(n):
+            if n[0] == 'l':
+                e = dict(LEAF_TYPES[n[2]])
+            else:
+                e = {'prim': 'or', 'args': [expr(n[2]), expr(n[3])]}
+            if n[1] is not None:
+                e['annots'] = ['%' + n[1]]
+            elif n[0] == 'l' and mode and rng.random() < 0.7:
+                e['annots'] = [':' + (rng.choice(names) if mode == 2 else 'ty' + str(rng.randrange(5)))]
+            return e
+        texpr = expr(t)
+        try:
+            sec = ParameterSection.match({'prim': 'parameter', 'args': [texpr]})
+            listed = sec.list_entrypoints()
+        except Exception:
+            continue
+        for n in names:
+            aty = sp[n]
+            if aty[0] != 'l' or n not in listed:
+                continue
+            arg = values_of(aty, payload=lambda i: i * 7 + 3)[0]
+            want = spec_inject(t, n, arg)
+            try:
+                py = listed[n].from_micheline_value(val_expr(arg)).to_python_object()
+                got = val_of_expr(sec.from_python_object({n: py}).to_micheline_value())
+            except Exception as e:
+                got = classify(e)
+            ctx.case({'op': 'from_python_object', 'type': json.dumps(texpr)[:300], 'entrypoint': n}, nontrivial=True)
+            ctx.count('python_object_form', ['plain', 'fresh :type names', ':type names equal to entrypoint names'][mode])
+            if got != want:
+                ctx.violation(f'from_python_object-wrong-value:{["plain", "type-names", "type-name=entrypoint"][mode]}',
+                              f'parameter {json.dumps(texpr)}: the call {{{n!r}: {py if not isinstance(got, str) else val_str(arg)}}} given as a Python object '
+                              f'builds {got if isinstance(got, str) else val_str(got)}, expected {val_str(want)}',
+                              {'type': texpr, 'entrypoint': n, 'argument': val_expr(arg), 'got': got if isinstance(got, str) else val_expr(got), 'expected': val_expr(want)})
+
+
 def show_dict(d):
     return d if isinstance(d, str) else ' ; '.join(' '.join([ann_tok(k)] + ty_toks(v)) for k, v in d.items())
 
@@ -501,6 +557,7 @@ def run(ctx):
         '`:type` annotations and multiple %annotations on one node are outside the generated domain',
     ]
     types = gen_types(ctx)
+    python_object_stream(ctx, types)
     max_vals = 10 if ctx.tier == 'quick' else 6
     lines, plan = [], []   # plan: (kind, payload, line index)
     impls = []
